@@ -14,7 +14,7 @@ import (
 type C10Case struct {
 	Root  V      `json:"root"`
 	Path  string `json:"path"`
-	Class string `json:"class"` // how the path was produced (informational)
+	Class string `json:"class"`           // how the path was produced (informational)
 	Build int    `json:"build,omitempty"` // construction-route seed (0 = Add/Set)
 	// Muts: mutations applied directly to nested containers (through their own handles) between
 	// repeated reads of the same path; every read must agree with stepwise navigation at that time
